@@ -1,23 +1,73 @@
 //! LR11xx command recorder. Commands are 16-bit opcode + arguments written in one exchange; a
 //! response is fetched by a separate all-NOP exchange whose first byte is Stat1 (LR1110 user manual,
 //! chapter 3). Only what C15 needs is decoded: SetModulationParams (opcode 0x020F, user manual
-//! table "SetModulationParams command": SF, BWL, CR, LowDataRateOptimize).
+//! table "SetModulationParams command": SF, BWL, CR, LowDataRateOptimize), and — for the stateful
+//! histories — what makes the chip forget it (SetSleep 0x011B without retention, Reboot 0x0118, NRESET),
+//! the commands that put it on the air (SetRx 0x0209, SetTx 0x020A, SetCad 0x0218, SetTxCw 0x0219,
+//! SetRxDutyCycle 0x0214) and the interrupt flags a bare read returns (Stat1, Stat2, IrqStatus[31:0]).
 
-use super::ChipModel;
+use super::{Air, AirKind, ChipModel, Held};
 
 pub const OP_SET_MODULATION_PARAM: [u8; 2] = [0x02, 0x0F];
+pub const OP_SET_PACKET_TYPE: [u8; 2] = [0x02, 0x0E];
+pub const OP_SET_RF_FREQUENCY: [u8; 2] = [0x02, 0x0B];
+pub const OP_SET_RX: [u8; 2] = [0x02, 0x09];
+pub const OP_SET_TX: [u8; 2] = [0x02, 0x0A];
+pub const OP_SET_CAD: [u8; 2] = [0x02, 0x18];
+pub const OP_SET_TX_CW: [u8; 2] = [0x02, 0x19];
+pub const OP_SET_RX_DUTY_CYCLE: [u8; 2] = [0x02, 0x14];
+pub const OP_SET_SLEEP: [u8; 2] = [0x01, 0x1B];
+pub const OP_REBOOT: [u8; 2] = [0x01, 0x18];
+pub const OP_CLEAR_IRQ: [u8; 2] = [0x01, 0x14];
 /// Stat1 with command status CMD_OK (bits 3:1 = 2)
 pub const STAT1_CMD_OK: u8 = 2 << 1;
+
+// IrqStatus bits (user manual, table "IRQ status bits")
+pub const IRQ_TX_DONE: u32 = 1 << 2;
+pub const IRQ_RX_DONE: u32 = 1 << 3;
+pub const IRQ_CAD_DONE: u32 = 1 << 8;
+pub const IRQ_TIMEOUT: u32 = 1 << 10;
 
 pub struct Lr11xx {
     pub mod_params: Option<[u8; 4]>,
     pub mod_params_count: u32,
     pub commands: u64,
+    pub packet_type: Option<u8>,
+    pub rf_freq_hz: Option<u32>,
+    pub irq: u32,
+    /// flags raised when SetRx is commanded (scripted by the harness)
+    pub irq_on_rx: u32,
+    pub asleep: bool,
+    /// the last SetSleep did not ask for retention
+    pub cold_sleep: bool,
+    pub power_ons: u32,
+    pub air: Option<Air>,
+    pub air_count: u64,
 }
 
 impl Lr11xx {
     pub fn new() -> Self {
-        Lr11xx { mod_params: None, mod_params_count: 0, commands: 0 }
+        Lr11xx { mod_params: None, mod_params_count: 0, commands: 0, packet_type: None, rf_freq_hz: None, irq: 0, irq_on_rx: IRQ_TIMEOUT, asleep: false, cold_sleep: false, power_ons: 0, air: None, air_count: 0 }
+    }
+
+    /// NRESET, Reboot, or waking up from a sleep without retention: the radio configuration is gone
+    pub fn power_on(&mut self) {
+        self.mod_params = None;
+        self.packet_type = None;
+        self.rf_freq_hz = None;
+        self.irq = 0;
+        self.asleep = false;
+        self.cold_sleep = false;
+        self.power_ons += 1;
+    }
+
+    pub fn held(&self) -> Held {
+        Held { lora_mode: self.packet_type == Some(0x02), freq_word: self.rf_freq_hz, modp: self.mod_params, ldro: self.mod_params.map(|m| m[3]), ..Default::default() }
+    }
+
+    fn on_air(&mut self, kind: AirKind) {
+        self.air = Some(Air { kind, held: self.held() });
+        self.air_count += 1;
     }
 }
 
@@ -26,11 +76,23 @@ impl ChipModel for Lr11xx {
         if mosi.is_empty() {
             return;
         }
+        if self.asleep {
+            // an NSS falling edge wakes the chip up
+            self.asleep = false;
+            if self.cold_sleep {
+                self.power_on();
+            }
+        }
         if mosi[0] == 0x00 {
-            // response fetch: Stat1 then data (zeros)
+            // response fetch / bare status read: Stat1, Stat2, then IrqStatus (bare read) or data (zeros).
+            // The drivers' data reads all follow a command; the only bare read of six bytes is the
+            // status/interrupt read.
             miso[0] = STAT1_CMD_OK;
             for m in miso.iter_mut().skip(1) {
                 *m = 0;
+            }
+            if miso.len() == 6 {
+                miso[2..6].copy_from_slice(&self.irq.to_be_bytes());
             }
             return;
         }
@@ -38,9 +100,36 @@ impl ChipModel for Lr11xx {
         for m in miso.iter_mut() {
             *m = STAT1_CMD_OK;
         }
-        if mosi.len() >= 6 && mosi[0..2] == OP_SET_MODULATION_PARAM {
+        if mosi.len() < 2 {
+            return;
+        }
+        let op = [mosi[0], mosi[1]];
+        if mosi.len() >= 6 && op == OP_SET_MODULATION_PARAM {
             self.mod_params = Some([mosi[2], mosi[3], mosi[4], mosi[5]]);
             self.mod_params_count += 1;
+        } else if op == OP_SET_PACKET_TYPE && mosi.len() >= 3 {
+            self.packet_type = Some(mosi[2]);
+        } else if op == OP_SET_RF_FREQUENCY && mosi.len() >= 6 {
+            self.rf_freq_hz = Some(u32::from_be_bytes([mosi[2], mosi[3], mosi[4], mosi[5]]));
+        } else if op == OP_SET_RX || op == OP_SET_RX_DUTY_CYCLE {
+            self.on_air(AirKind::Rx);
+            self.irq |= self.irq_on_rx;
+        } else if op == OP_SET_TX {
+            self.on_air(AirKind::Tx);
+            self.irq |= IRQ_TX_DONE;
+        } else if op == OP_SET_CAD {
+            self.on_air(AirKind::Cad);
+            self.irq |= IRQ_CAD_DONE;
+        } else if op == OP_SET_TX_CW {
+            self.on_air(AirKind::TxCw);
+        } else if op == OP_CLEAR_IRQ && mosi.len() >= 6 {
+            self.irq &= !u32::from_be_bytes([mosi[2], mosi[3], mosi[4], mosi[5]]);
+        } else if op == OP_SET_SLEEP {
+            // sleepConfig bit 0: 1 = retention (warm start), 0 = none
+            self.cold_sleep = mosi.len() < 3 || mosi[2] & 0x01 == 0;
+            self.asleep = true;
+        } else if op == OP_REBOOT {
+            self.power_on();
         }
     }
 }
